@@ -1,5 +1,49 @@
 import Driver.Common
-open Driver
+import GIV.Model.ScriptCmds
+open GIV GIV.TsRun GIV.TsRun.Cmds Driver
 
-/-- stub: replaced by the group's model driver. -/
-def main : IO Unit := run (fun _ => "bad-op")
+def showVerdict : Verdict → String
+  | .pass => "pass" | .fail => "fail" | .skip => "skip" | .crash => "crash"
+
+def parseVerdict : String → Option Verdict
+  | "pass" => some .pass | "fail" => some .fail | "skip" => some .skip | "crash" => some .crash
+  | _ => none
+
+def showPath (p : Path) : String := toHex (join [47] p)
+
+def showTree (fs : FS) : String :=
+  String.intercalate ";" (
+    (fs.dirs.filter (fun d => d ≠ [lit ".tmp"])).map (fun d => "d:" ++ showPath d) ++
+    fs.files.map (fun e => "f:" ++ showPath e.1 ++ ":" ++ toHex e.2))
+
+def paramsOf (flags goos goarch : String) : P :=
+  let has (c : Char) := flags.toList.contains c
+  { continueOnError := has 'c', requireExplicitExec := has 'e', requireUniqueNames := has 'n',
+    updateScripts := has 'U', customCmds := has 'k', customCond := has 'q',
+    goos := goos.toUTF8.toList, goarch := goarch.toUTF8.toList }
+
+/-- `run <flags> <goos> <goarch> <script-file-hex>` — one script file through setup, the loop and the
+deferred update; `cli <verdict>,<verdict>,…` — exit status of cmd/testscript for these verdicts. -/
+def step (line : String) : String :=
+  match line.splitOn " " with
+  | ["run", flags, goos, goarch, h] =>
+    match fromHex h with
+    | none => "bad-op"
+    | some file =>
+      match runFile (paramsOf flags goos goarch) file with
+      | none => "parse-panic"
+      | some f =>
+        if f.unmodelled then "unsupported" else
+        "v=" ++ showVerdict f.verdict ++
+        " line=" ++ (match f.reported with | none => "-" | some n => toString n) ++
+        " probes=" ++ (if f.probes.isEmpty then "-" else String.intercalate "," (f.probes.map toHex)) ++
+        " tree=" ++ (let t := showTree f.fs; if t.isEmpty then "-" else t) ++
+        " exit=" ++ toString (cli [f.verdict]) ++
+        " file=" ++ (if f.file = file then "same" else toHex f.file)
+  | ["cli", vs] =>
+    match (vs.splitOn ",").mapM parseVerdict with
+    | none => "bad-op"
+    | some l => "exit=" ++ toString (cli l)
+  | _ => "bad-op"
+
+def main : IO Unit := run step
